@@ -590,6 +590,7 @@ type objWrite struct {
 	Field string
 	Fn    string
 	Kind  string
+	Phase string // "validate": inside a method named Validate (runs once, before the tree is shared); "run": anywhere else
 }
 
 func isSharedObjType(name string) bool {
@@ -704,7 +705,11 @@ func sharedObjectWriteFacts(root string, pkg string) ([]objWrite, error) {
 				if kind != "atomic" && lockBefore(body, pos) {
 					kind += "+lock"
 				}
-				w := objWrite{obj, field, fn, kind}
+				phase := "run"
+				if fd.Name.Name == "Validate" && fd.Recv != nil {
+					phase = "validate"
+				}
+				w := objWrite{obj, field, fn, kind, phase}
 				if !seen[w] {
 					seen[w] = true
 					out = append(out, w)
